@@ -11,7 +11,8 @@ ev=$(/verif/tools/seed_eval.sh $wt/mutations/$m/patch.diff $checks 2>&1 | grep -
 echo "$ev"
 cp $wt/mutations/$m/patch.diff $dest/patch.diff
 rm -rf $dest/demo; mkdir -p $dest/demo
-( cd $wt/mutations/$m && find . -maxdepth 2 -type f ! -name patch.diff -size -200k | cpio -pdm $dest/demo 2>/dev/null )
+( cd $wt/mutations/$m && find . -maxdepth 3 -type f ! -name patch.diff -size -300k ! -path './target/*' ! -path './out/*' | while read f; do mkdir -p "$dest/demo/$(dirname "$f")"; cp "$f" "$dest/demo/$f"; done )
+[ -f $dest/demo/demo.sh ] || echo "WARNING: no demo.sh copied for $prop-$m"
 python3 - "$prop" "$m" "$dest" "$conf" "$ev" "$checks" <<'PY'
 import json, sys, re
 prop, m, dest, conf, ev, checks = sys.argv[1:7]
